@@ -12,6 +12,7 @@ import gc
 import io
 import json
 import logging
+import random
 import threading
 import time as time_mod
 from concurrent.futures import Executor, ThreadPoolExecutor
@@ -24,6 +25,7 @@ from taskiq.abc.broker import AsyncBroker
 from taskiq.abc.result_backend import AsyncResultBackend
 from taskiq.acks import AckableMessage, AcknowledgeType
 from taskiq.exceptions import BrokerError, NoResultError, SendTaskError, UnknownTaskError
+from taskiq.formatters.json_formatter import JSONFormatter
 from taskiq.formatters.proxy_formatter import ProxyFormatter
 from taskiq.kicker import AsyncKicker
 from taskiq.labels import prepare_label
@@ -859,6 +861,107 @@ def make_payload(broker, i, M, tbl):
                                                 labels_types=types, args=[], kwargs={})).message
 
 
+# taskiq.labels.LabelType as every released client writes it (the harness' own table: the wire form of a message that is
+# not sent through the real kicker is built without asking the code under test)
+LT = dict(any=1, int=2, str=3, float=4, bool=5, bytes=6)
+GHOST_VALUE = {1: None, 2: 1, 3: "s", 4: 1.5, 5: True, 6: b"x"}
+
+
+class WireBroker(AsyncBroker):
+    """the CLIENT's broker object: what its kick() is handed is the message on the wire"""
+
+    def __init__(self):
+        super().__init__()
+        self.sent = []
+
+    async def kick(self, message):
+        self.sent.append(message)
+
+    async def listen(self):
+        return
+        yield b""
+
+
+def make_stamp(w, stamps, ghost):
+    class Stamp(TaskiqMiddleware):
+        """client side: a pre_send hook (it runs after the kicker has computed labels_types) that adds labels - tracing /
+        correlation / tenant headers - and removes some"""
+
+        def pre_send(self, message):
+            def do():
+                if w.get("inplace", True):
+                    out = message
+                else:
+                    out = message.model_copy(update={"labels": dict(message.labels)})
+                for k, v in stamps.items():
+                    out.labels[k] = v
+                for k in ghost:
+                    out.labels.pop(k, None)
+                return out
+
+            if w.get("pre_send") == "async":
+                async def later():
+                    return do()
+                return later()
+            return do()
+    return Stamp()
+
+
+async def wire_payload(broker, i, M, tbl):
+    """the bytes of one VALID message, written as M["wire"] says (pipeline_lib.gen_wire).  The label dict a correct receiver
+    runs the task with is the table entry M["labels"], whatever the wire form: a label with a labels_types entry is parsed
+    back to the table value, a label without one arrives as the JSON value that was sent - the table value."""
+    w = M["wire"]
+    D = typed_labels(tbl, M["labels"])
+    name = "t%d" % i if M["kind"] == "ok" else "nope%d" % i
+    tid_ = "id%d" % M["id"]
+    typed = w.get("typed") or {}
+    ghost = [(k, t) for k, t in w.get("ghost") or []]
+    if w["via"] == "kicker":
+        wb = WireBroker()
+        if w.get("cfmt") == "json":
+            wb.formatter = JSONFormatter()
+        wb.add_middlewares(make_stamp(w, {k: v for k, v in D.items() if k not in typed}, [k for k, _ in ghost]))
+        labels = {k: v for k, v in D.items() if k in typed}
+        labels.update({k: GHOST_VALUE[t] for k, t in ghost})      # typed by the kicker, removed by the middleware
+        await AsyncKicker(name, wb, {}).with_task_id(tid_).with_labels(**labels).kiq()
+        assert len(wb.sent) == 1, "harness: kiq did not hand exactly one message to broker.kick"
+        return wb.sent[0].message
+    labels, types = {}, {}
+    for k, v in D.items():
+        sp = typed.get(k)
+        if sp is None:
+            labels[k] = v
+            continue
+        assert type(v) in (int, str, float, bool), "scenario: a typed label that no type describes"
+        if sp == "std":
+            labels[k], types[k] = str(v), LT[type(v).__name__]
+        elif sp == "num":
+            labels[k], types[k] = v, LT[type(v).__name__]
+        else:
+            assert sp == "any", "scenario: unknown spelling %r" % (sp,)
+            labels[k], types[k] = v, LT["any"]
+    for k, t in ghost:
+        types[k] = t
+    lt = types if w["lt"] == "dict" else None
+    assert lt is not None or not types, "scenario: typed label without labels_types"
+    if w["via"] == "model":
+        fmt = JSONFormatter() if w.get("cfmt") == "json" else ProxyFormatter(broker)
+        return fmt.dumps(TaskiqMessage(task_id=tid_, task_name=name, labels=labels, labels_types=lt, args=[],
+                                       kwargs={})).message
+    assert w["via"] == "raw", "scenario: unknown via %r" % (w["via"],)
+    d = dict(task_id=tid_, task_name=name, labels=labels, labels_types=lt, args=[], kwargs={})
+    if w["lt"] == "omit":
+        del d["labels_types"]
+    d.update(w.get("top") or {})
+    tx = w.get("text") or {}
+    keys = list(d)
+    random.Random(tx.get("order", 0)).shuffle(keys)
+    d = {k: d[k] for k in keys}
+    return json.dumps(d, ensure_ascii=bool(tx.get("ascii", True)),
+                      separators=(",", ":") if tx.get("compact") else (", ", ": ")).encode("utf-8")
+
+
 class PLoop(vloop.VLoop):
     """virtual-time loop + sync task bodies with a *virtual* duration.
 
@@ -1130,7 +1233,10 @@ def run_recv(case):
 
         async def one(i, M):
             await susp(M.get("arrive"))
-            data = make_payload(broker, i, M, tbl)
+            if M.get("wire"):
+                data = await wire_payload(broker, i, M, tbl)
+            else:
+                data = make_payload(broker, i, M, tbl)
             if M["ackable"] != "none":
                 msg = AckableMessage(data=data, ack=make_ack(i, M))
             else:
